@@ -27,7 +27,7 @@ def gen(seed, num, depth, workdir, timeout=300):
     for f in ("Limits.tla", "MC_limitsim.tla"):
         subprocess.run(["cp", os.path.join(SPEC, f), workdir], check=True)
     open(os.path.join(workdir, "sim.cfg"), "w").write(
-        "SPECIFICATION Spec\nCONSTANTS\n  Lens = {%s}\n  Maxes = {%s}\n  InIds = {1, 2, 3}\n  MaxOps = 14\n  MaxConn = 4\n"
+        "SPECIFICATION Spec\nCONSTANTS\n  Lens = {%s}\n  Maxes = {%s}\n  InIds = {1, 2, 3}\n  MaxOps = 14\n  MaxConn = 4\n  Stalls = FALSE\n"
         "  Dev = {}\n  Record = TRUE\n"
         "INVARIANTS Emit Inv_C14_wire Inv_C14_stored Inv_C12_usable Inv_C04_recorded Inv_C04_once Inv_C04_delivered\n"
         "ACTION_CONSTRAINT SimDrop\nCHECK_DEADLOCK FALSE\n" % (", ".join(map(str, LENS)), ", ".join(map(str, MAXES))))
